@@ -813,5 +813,28 @@ PROPS["C19"]["explanation"] += " (FIELDCAP) a local per-field table indexed up t
 PROPS["C11"]["rules"] = PROPS["C11"]["rules"] + [rules_ann.rule_directory_slot_live]
 PROPS["C11"]["explanation"] += " (SLOTLIVE) a DFAN directory slot's object tag/ref is read only under a test of that slot's annref."
 
+# round 13
+for _p in ("C12", "C08"):
+    PROPS[_p]["rules"] = PROPS[_p]["rules"] + [rules_idioms.rule_comparator_width]
+    PROPS[_p]["explanation"] += " (CMPWIDTH) the key comparators handed to tbbtdmake return their key difference without narrowing it."
+PROPS["C12"]["rules"] = PROPS["C12"]["rules"] + [rules_idioms.rule_lookups_before_create]
+PROPS["C12"]["explanation"] += " (LOOKFIRST) a routine that looks up one descriptor and creates another does the failing look-up before HTPcreate."
+PROPS["C08"]["rules"] = PROPS["C08"]["rules"] + [rules_loops.rule_member_search_forward]
+PROPS["C08"]["explanation"] += " (FIRSTHIT) a search for a tag/ref pair in a Vgroup's member list counts up from 0."
+PROPS["C11"]["rules"] = PROPS["C11"]["rules"] + [rules_ann.rule_annotation_pair_out, rules_ann.rule_length_forwarded]
+PROPS["C11"]["explanation"] += " (ANNREFOUT) a pair handed out under an annotation tag carries the annotation's own reference. (LENFWD) an annotation writer hands the caller's byte count to the element write unchanged."
+PROPS["C13"]["rules"] = PROPS["C13"]["rules"] + [rules_handles.rule_refused_close_restores_count, rules_handles.rule_slot_id_consumed]
+PROPS["C13"]["explanation"] += " (RESTORE) a refused Hclose leaves the file record's reference count as it found it. (SLOTID) the id returned by a special element's start-access slot is handed on or removed."
+for _p in ("C15", "C03"):
+    PROPS[_p]["rules"] = PROPS[_p]["rules"] + [rules_sd.rule_dimension_value_unlimited]
+    PROPS[_p]["explanation"] += " (UNLIMVAL) each writer of a dimension's value Vdata has the NC_UNLIMITED case that stores numrecs."
+for _p in ("C15", "C09"):
+    PROPS[_p]["rules"] = PROPS[_p]["rules"] + [rules_gr.rule_id_record_interlace]
+    PROPS[_p]["explanation"] += " (DISKIL) the image dimension record is built without the interlace the image was created with."
+PROPS["C18"]["rules"] = PROPS["C18"]["rules"] + [rules_repack.rule_chunked_both_forms, rules_loops.rule_no_dead_element_store]
+PROPS["C18"]["explanation"] += " (CHUNKFORMS) options_get_info accepts both spellings of \"chunked\" wherever it merges a compression request into a chunking. (DEADELEM) no constant-element store is killed by a following whole-array loop."
+PROPS["C19"]["rules"] = PROPS["C19"]["rules"] + [rules_tools.rule_name_table_matches_codes, rules_tools.rule_lone_vdata_listed]
+PROPS["C19"]["explanation"] += " (NAMECODE) the words of a table whose index is a code stand at the value of their like-named code constant. (LONEVS) hdiff's Vdata listing skips a reserved class only for an empty class."
+
 NOT_APPLICABLE = {}
 
